@@ -176,6 +176,11 @@ if false {
 			name = []string{"tok", "WORD", "INT", "sep"}[r.Intn(4)]
 		}
 		def := []string{"[a-z]+", "[a-z0-9]+", "\\\\d+", "[a-z]{2}", "hello"}[r.Intn(5)]
+		if Theme != "" && r.Intn(3) == 0 {
+			// a definition no earlier plan of this process used: the expanded expression itself is
+			// new, so anything keyed on it (a compiled-pattern cache) is cold inside this plan
+			def = "(?:[a-z]+|" + Theme + ")"
+		}
 		decl := fmt.Sprintf("add_pattern(%q, \"%s\")\n", name, def)
 		if r.Intn(4) == 0 {
 			decl = "" // relies on the global pattern of that name, or fails the check when there is none
